@@ -256,7 +256,9 @@ def run(ctx):
     RR.search_chain_shape(ctx, "R13.f", parts=("complete", "score", "filter"))
     from . import C20 as RC20
     RC20.buffer_rules(ctx, None, None, "R20.f")
-    return info("Necessary structure only (which record word a query word is assigned to is a runtime matter and is not decided): "
+    from . import C20 as _RC20
+    _RC20.api_effects(ctx, "R13.i", which=("add",))
+    return info("R13.i: add_record really adds the record to the addressed store on every call (the registry API is not exercised by the repository's tests). Necessary structure only (which record word a query word is assigned to is a runtime matter and is not decided): "
                 "R13.a the scan over record words restarts at the first word and covers all words for every query word; R13.b words are "
                 "passed over only when matched already; R13.c only a non-function match stops the scan; R13.d equal words pass the "
                 "length, Jaccard and DL gates; R13.e two matched words pass the filter (abstract run); R13.f gram generator, "
